@@ -70,6 +70,11 @@ class Evolution:
 
     def add_nullable_field(self):
         d = self.rnd.choice(self._structs())
+        members = [x for x in self._structs() if not x.subtypes and not self.b.is_leaf(x) and
+                   any(f.type is not None and self.b.target(f.type) is x
+                       for u in self.b.defs('union') for f in self.b.own_fields(u))]
+        if members and self.rnd.random() < 0.4:
+            d = self.rnd.choice(members)      # a struct that travels as a union member
         ns = self.b.ns(d.ns)
         t = self.g.type_expr(ns, depth=1)
         if not self.b.is_nullable(t):
@@ -77,7 +82,7 @@ class Evolution:
         if not t.nullable:
             return None
         name = self.nm('newf')
-        if self.rnd.random() < 0.3:
+        if self.rnd.random() < 0.5:
             # name the new field after a union tag under which this struct travels (its fields are
             # flattened next to ".tag", so the key of the new field equals the tag)
             chain_names = {f.name for s_ in self.b.defs('struct') for f in self.b.own_fields(s_)
